@@ -56,15 +56,17 @@ Proof. exact phase_error_leads_to_fail. Qed.
 Print Assumptions C02_phase_error_contained.
 
 (** --- engine level (Engine: persisted task and instance statuses, the parser's tree and event queue, the
-    executor's registered runs and the deliveries under way, the retry command in its phases, crash and
-    restart, the watchdog - one instance as a transition system at the granularity of single store writes
-    and goroutine hand-overs; scope: tasks without pre-checks, failures in every phase, retry commands
-    also while the instance is busy, no-op commands).  The statements hold for every history in which no
-    delivery is accepted with a stale snapshot ([validate = true], the other switches arbitrary); the code
-    as it is admits such a delivery after a retry command re-initialised a busy instance, and then every
-    one of them fails ([..._unvalidated_refuted]; known finding F-dup-push, reproduced on the real code).
-    Journals of the real engine in this scope are checked to be histories of Engine
-    ([EngineCheck.check_core]) and the hypothesis is monitored on them. --- *)
+    pushes in progress with their pre-check verdicts, the executor's registered runs and the deliveries
+    under way, the retry and continue commands in their phases, crash and restart, the watchdog - one
+    instance as a transition system at the granularity of single store writes and goroutine hand-overs;
+    scope: pre-checks (skip / block), failures in every phase, retry and continue commands also while the
+    instance is busy, no-op commands; not: cancel, failing writes).  The statements hold for every history
+    in which no delivery is accepted, and no pre-check verdict written, on the strength of a stale snapshot
+    or next to another delivery of the same task ([validate = true], the other switches arbitrary); the code
+    as it is admits both after a retry command re-initialised a busy instance, and then every one of them
+    fails ([..._refuted]; known finding F-dup-push, reproduced on the real code).  Journals of the real
+    engine in this scope are checked to be histories of Engine ([EngineCheck.check_core]) and the hypothesis
+    is monitored on them. --- *)
 
 (** at most one main-action start per attempt, across duplicate pushes, crashes and restarts: a start
     requires that none happened in the attempt, and only the retry command of that task opens a new attempt *)
